@@ -173,6 +173,20 @@ def in_scope(t, strict=True, allow_zero=False):
 
 
 def retained_tips(t, op):
+    if op["op"] == "remove_deleted":
+        dead = set(op["names"])
+        keep = set()
+
+        def rec0(node, gone):
+            g = gone or node[0] in dead
+            if not node[2] and not g:
+                keep.add(node[0])
+            for c in node[2]:
+                rec0(c, g)
+
+        for c in t[2]:
+            rec0(c, False)
+        return keep
     if op["op"] != "sub_tree":
         return set(tip_names(t))
     names = set(op["names"])
@@ -189,9 +203,9 @@ def retained_tips(t, op):
     return keep
 
 
-INPLACE = {"prune"}
+INPLACE = {"prune", "remove_deleted"}
 PRESERVING = {"rooted_at", "rooted_with_tip", "unrooted", "unrooted_deepcopy", "sub_tree", "sorted", "prune", "copy",
-              "deepcopy", "midpoint", "bifurcating", "multifurcating", "newick_rt", "json_rt", "dist", "warm"}
+              "deepcopy", "midpoint", "bifurcating", "multifurcating", "newick_rt", "json_rt", "dist", "warm", "remove_deleted"}
 IDENTITY = {"copy", "deepcopy", "newick_rt", "json_rt", "dist", "warm"}
 NEWICK_SPECIAL = set("[]'\"(),:;")
 
@@ -200,19 +214,27 @@ def is_punct_name(nm):
     return isinstance(nm, str) and len(nm) == 1 and nm in "()[],:;"
 
 
+PYSPACE = set(" \t\n\r\x0b\x0c\x1c\x1d\x1e\x1f")
+QUOTE_CHARS = set("[]'\"(),:;_")
+
+
 def name_ok_for_roundtrip(nm, op):
-    """names the round trips are required to give back unchanged (the guard rt_ok of the newick theorem, restricted to
-    printable ASCII); names consisting of one punctuation character are in: the parser may reject them with an error,
-    but must not silently read something else"""
-    if not isinstance(nm, str) or not nm or nm != nm.strip() or nm.startswith("'"):
+    """names the round trips are required to give back unchanged: the computable guards of the Coq theorems
+    (NewickProofs.rt_ok, NewickMoreProofs.rt_ok_nu / rt_ok_json) on one name.  A name consisting of one punctuation
+    character is claimed too (the parser must not silently read something else)."""
+    if not isinstance(nm, str) or not nm or nm.startswith("'") or "\n" in nm:
         return False
-    if any(ord(c) < 32 or ord(c) > 126 for c in nm):
-        return False
-    if op["op"] == "json_rt" and nm == "root":
-        return False  # edge attributes are keyed by name: a second "root" takes the root's parameters
-    if op["op"] == "newick_rt" and not op.get("unmunge") and " " in nm:
-        return False  # blanks are written as underscores; only underscore_unmunge=True reads them back
-    return True
+    quoted = bool(set(nm) & QUOTE_CHARS)
+    o = op["op"]
+    if o == "json_rt":
+        if nm == "root":
+            return False  # edge attributes are keyed by name: a second "root" takes the root's parameters
+        return quoted or " " in nm or (nm[0] not in PYSPACE and nm[-1] not in PYSPACE)
+    if o == "newick_rt" and not op.get("unmunge"):
+        # written unquoted: blanks become underscores and stay underscores
+        return quoted or (" " not in nm and nm[0] not in PYSPACE and nm[-1] not in PYSPACE)
+    # written unquoted: white space other than blank at either end is stripped by the reader
+    return quoted or all(c == " " or c not in PYSPACE for c in (nm[0], nm[-1]))
 
 
 def canon_order(t):
@@ -295,6 +317,8 @@ def oracle_step0(t, op, st, strict):
             bad.append((f"raised:{o}:{sc}", "a valid request raised", "a tree", st.get("msg")))
         return bad
     keep = retained_tips(t, op)
+    if o == "remove_deleted" and not keep:
+        return bad  # everything deleted: the bare root is left
     rt = tip_names(res)
     if sorted(map(str, rt)) != sorted(keep):
         bad.append((f"tips:{o}:{sc}", "tip set of the result", sorted(keep), sorted(map(str, rt))))
@@ -420,6 +444,8 @@ def coq_op(o, fx, fxm=False, fxj=False):
         return f"OTreeDistRF {coq_tree(o['_orig'] if o['other'] == 'orig' else o['other'])}"
     if k == "warm":
         return "ODist"
+    if k == "remove_deleted":
+        return f"ORemoveDeleted {coq_names(o['names'])}"
     return None
 
 
@@ -685,6 +711,65 @@ def names_block():
         for op in (dict(op="newick_rt", unmunge=True), dict(op="newick_rt", unmunge=False), dict(op="json_rt"),
                    dict(op="newick", esc=True, with_len=True, semicolon=True)):
             cases.append(dict(tree=t, ops=[op], scale=1, block="names-fixed-list"))
+    return cases
+
+
+def all_names(alphabet, maxlen):
+    out = []
+    for k in range(1, maxlen + 1):
+        out += ["".join(p) for p in itertools.product(alphabet, repeat=k)]
+    return out
+
+
+def exhaustive_names_block(tier, rng):
+    """every string over {a ' " _ blank} up to length 3 (thorough: 4) as a tip name, plus random strings over a wider
+    alphabet (backslash, brackets, comma, colon, semicolon, parentheses, dot, tab); newick (both unmunge settings) and JSON
+    round trips; the rt_ok guards decide which names are claimed by the oracle, all are compared with the model"""
+    cases = []
+    names = all_names("a'\"_ ", 3 if tier == "quick" else 4)
+    wide = "a'\"_ \\[](),:;.\tb"
+    for _ in range(60 if tier == "quick" else 600):
+        names.append("".join(rng.choice(wide) for _ in range(rng.randint(2, 6))))
+    names += ['x""y', 'say ""hi""', "it''s", "''", '""', "a''", 'a""', "\\", "a\\'b", '"\'"\'', "[a]", "a[b", "a]b"]
+    ops = (dict(op="newick_rt", unmunge=True), dict(op="newick_rt", unmunge=False), dict(op="json_rt"))
+    for i, nm in enumerate(names):
+        if nm in ("b", "c", "n1", "root"):
+            continue
+        t = ["root", None, [[nm, 2, []], ["b", 3, []], ["n1", 1, [["c", 4, []], ["d", 5, []]]]]]
+        if tier == "quick" and len(nm) == 3 and i % 3:
+            # quick: the length-3 names get one of the three round trips each (all three in thorough)
+            cases.append(dict(tree=t, ops=[ops[i % 3]], scale=1, block="names-exhaustive"))
+            continue
+        for op in ops:
+            cases.append(dict(tree=t, ops=[op], scale=1, block="names-exhaustive"))
+    return cases
+
+
+def remove_deleted_block(tier, rng):
+    """in-place pruning: remove_deleted(name in D) alone and followed by prune(), for every subset D of the tips of every
+    small shape (and some D containing internal names)"""
+    cases = []
+    seed_t = ["root", None, [["a", 1, []], ["cdef", 2, [["cd", 1, [["c", 1, []], ["d", 1, []]]], ["ef", 1, [["e", 1, []], ["f", 1, []]]]]],
+                             ["b", 3, []]]]
+    trees = [seed_t]
+    for n in range(2, (5 if tier == "quick" else 6) + 1):
+        shs = shapes(n, ordered=(n <= 4))
+        if n >= 5 and tier == "quick":
+            shs = rng.sample(shs, 8)
+        for sh in shs:
+            trees.append(label(sh, length_stream(rng, "pos")))
+    for t in trees:
+        tips = tip_names(t)
+        internal = [x for x in node_names(t)[1:] if x not in tips]
+        subsets = [list(c) for k in range(1, len(tips) + 1) for c in itertools.combinations(tips, k)]
+        if len(subsets) > 40 and tier == "quick":
+            subsets = rng.sample(subsets, 40)
+        if internal:
+            subsets.append([internal[0]])
+            subsets.append([internal[-1], tips[0]])
+        for D in subsets:
+            cases.append(dict(tree=t, ops=[dict(op="remove_deleted", names=D)], scale=1, block="remove-deleted"))
+            cases.append(dict(tree=t, ops=[dict(op="remove_deleted", names=D), dict(op="prune")], scale=1, block="remove-deleted"))
     return cases
 
 
@@ -1033,7 +1118,7 @@ def run(tier: str, seed: int) -> int:
     rep.notes.append(f"source variant probe: {pv}")
     proof_broken = bool(pr["problems"])
 
-    cases = corpus() + parse_block(rng) + names_block() + exhaustive_block(tier, rng) + random_block(tier, rng) + treedist_block(tier, rng) + history_block(tier, rng) + generated_names_block(tier, rng)
+    cases = corpus() + parse_block(rng) + names_block() + exhaustive_names_block(tier, rng) + remove_deleted_block(tier, rng) + exhaustive_block(tier, rng) + random_block(tier, rng) + treedist_block(tier, rng) + history_block(tier, rng) + generated_names_block(tier, rng)
     if proof_broken:
         cases += random_block("thorough" if tier == "quick" else tier, rng)
     impl = core.run_impl_sharded("c09_impl.py", cases)
@@ -1078,7 +1163,8 @@ def run(tier: str, seed: int) -> int:
             "round trips follows from the identity theorems; get_sub_tree(tipsonly=False) topology is oracle-only",
             "newick round trip theorem is for underscore_unmunge=True; unmunge=False and the JSON round trip: model compared with the "
             "implementation and with the identity oracle only",
-            "get_sub_tree theorems are for tipsonly=True; tipsonly=False by correspondence and oracle",
+            "get_sub_tree theorems are for tipsonly=True; tipsonly=False by correspondence and oracle; remove_deleted theorems are for "
+            "predicates naming tips only (internal_free), predicates hitting internal nodes by correspondence",
             "copy/deepcopy: the model is the identity; implementation compared with the identity oracle",
             "tree-to-tree distances: Robinson-Foulds (rooted/unrooted) is modelled and compared; Lin-Rajan-Moret and matching cluster "
             "(Hungarian assignment, scipy) only against an independent brute-force split-/cluster-set oracle (value, symmetry, zero iff "
